@@ -12,6 +12,8 @@ CONSTANTS
   OblDirtyRefused = FALSE
   OblIdempotent = TRUE
   OblFence = TRUE
+  AllowXA = FALSE
+  OblXATruthful = TRUE
 INVARIANTS TypeOK ATAtomicRollback TCCAtomic NoDirtyGlobalWrite RollbackPossible
 PROPERTIES ForeignSafe
 CHECK_DEADLOCK FALSE
